@@ -16,7 +16,7 @@ func init() {
 	core.Register(&core.Prop{
 		ID:    "C05",
 		Level: "fault_enumeration",
-		Rule: "per generated valid stream (1-4 messages, fragmented or not, compressed or not, controls interleaved, <= ~700 bytes): EVERY cut offset 0..len x 6 fault kinds {EOF, error, timeout} x {after the bytes, together with the last bytes}, " +
+		Rule: "per generated valid stream (1-4 messages, fragmented or not, compressed or not, controls interleaved, <= ~700 bytes): EVERY cut offset 0..len x 8 fault kinds {EOF, error, timeout, io.ErrUnexpectedEOF} x {after the bytes, together with the last bytes}, " +
 			"each under 2 PRNG-chosen (read buffer, chunking, read program) executions; distinct = (stream hash, cut, kind, execution); non-trivial = the cut falls strictly inside the stream",
 		Variants: core.PlainOnly,
 		Cases: func(tier, variant string) int {
@@ -35,7 +35,7 @@ func init() {
 	})
 }
 
-var faultNames = []string{"eof-after", "eof-with-last-bytes", "error-after", "error-with-last-bytes", "timeout-after", "timeout-with-last-bytes"}
+var faultNames = []string{"eof-after", "eof-with-last-bytes", "error-after", "error-with-last-bytes", "timeout-after", "timeout-with-last-bytes", "unexpected-eof-after", "unexpected-eof-with-last-bytes"}
 
 func runC05(ctx *core.Ctx, out *core.Out) {
 	r := ctx.R
@@ -61,7 +61,7 @@ func runC05(ctx *core.Ctx, out *core.Out) {
 		frameEnd[o] = true
 	}
 	for cut := 0; cut <= len(st.Bytes); cut++ {
-		for kind := 0; kind < 6; kind++ {
+		for kind := 0; kind < len(faultNames); kind++ {
 			for k := 0; k < 2; k++ {
 				ex := rdExec{RB: r.BufSize(), Chunk: r.Intn(xport.NChunkStyles + 2), Mode: r.Intn(2), Server: fromClient, Comp: comp}
 				if ex.Chunk > xport.NChunkStyles {
@@ -97,8 +97,10 @@ func c05Exec(out *core.Out, st *Stream, exp []Ev, ends []int, cut, kind int, ex 
 		ferr = io.EOF
 	case 1:
 		ferr = xport.ErrInjected
-	default:
+	case 2:
 		ferr = &xport.TimeoutErr{S: "xport: injected timeout"}
+	default:
+		ferr = io.ErrUnexpectedEOF // what crypto/tls reports when TCP ends inside a record
 	}
 	with := kind%2 == 1
 	var chunks []xport.Chunk
